@@ -97,6 +97,21 @@ class _SolverProxy:
         return x
 
 
+class _PyamgFaultProxy:
+    """Module-level stand-in for `pyamg` inside darsia.measure.wasserstein: the multigrid set-up the library requests
+    fails INSIDE the third-party call (site 'pyamg'), i.e. below any handling the library's own set-up routine may have."""
+
+    def __init__(self, real, seam):
+        self._real, self._seam = real, seam
+
+    def __getattr__(self, n):
+        return getattr(self._real, n)
+
+    def smoothed_aggregation_solver(self, *a, **k):
+        self._seam.maybe_raise("pyamg")
+        return self._real.smoothed_aggregation_solver(*a, **k)
+
+
 class SolveSeam:
     """Instance-level wrappers around the inner linear solve of one distance object."""
 
@@ -434,6 +449,7 @@ def run_solver(cfg, fault=None, num_iter=None, form="info", env=None) -> RunResu
     rr = RunResult()
     clock = SimClock(env.get("clock_jumps", ()))
     old_time, old_tm = wmod.time, wmod.tracemalloc
+    old_pyamg = None
     wmod.time = clock
     if env.get("tracemalloc", "stub") == "stub":
         wmod.tracemalloc = TraceStub()
@@ -448,6 +464,10 @@ def run_solver(cfg, fault=None, num_iter=None, form="info", env=None) -> RunResu
             rr.clock = clock
             return rr
         seam = SolveSeam(obj, None)
+        if not hasattr(wmod, "pyamg"):
+            raise HarnessError("seam missing: darsia.measure.wasserstein.pyamg")
+        old_pyamg = wmod.pyamg
+        wmod.pyamg = _PyamgFaultProxy(old_pyamg, seam)
         import contextlib
         import io as _io
         with contextlib.redirect_stdout(_io.StringIO()):
@@ -480,6 +500,8 @@ def run_solver(cfg, fault=None, num_iter=None, form="info", env=None) -> RunResu
         return rr
     finally:
         wmod.time, wmod.tracemalloc = old_time, old_tm
+        if old_pyamg is not None:
+            wmod.pyamg = old_pyamg
         import tracemalloc as _t
         if _t.is_tracing():
             _t.stop()
@@ -1028,6 +1050,9 @@ class C04Engine(Engine):
             for k in range(1, n):
                 for si, site in enumerate(SITES):
                     plan.append({"site": site, "occurrence": k, "exc": EXC_TYPES[(seed + 3 * k + si) % len(EXC_TYPES)]})
+                if cfg["linear_solver"] in ("amg", "cg"):
+                    # the multigrid set-up of solve k fails inside pyamg (below the library's set-up routine)
+                    plan.append({"site": "pyamg", "occurrence": k, "exc": EXC_TYPES[(seed + 3 * k + 6) % len(EXC_TYPES)]})
                 if cfg.get("aa_depth"):
                     # the acceleration step of loop iteration k-1 fails (after the iterate was updated): an inner step too
                     plan.append({"site": "anderson", "occurrence": k, "exc": EXC_TYPES[(seed + 3 * k + 5) % len(EXC_TYPES)]})
